@@ -158,8 +158,21 @@ const (
 	kCodecF
 	kCodecT
 	kNilOK
+	kCodec0
 	kCount
 )
+
+// Codec0 is a codec-style error that leaves the code at 0 and the message empty; all it has to say is in Data.
+type Codec0 struct{ Data string }
+
+func (e *Codec0) Error() string { return "codec0:" + e.Data }
+func (e *Codec0) ToJSONRPCError() (jsonrpc.JSONRPCError, error) {
+	return jsonrpc.JSONRPCError{Data: e.Data}, nil
+}
+func (e *Codec0) FromJSONRPCError(j jsonrpc.JSONRPCError) error {
+	e.Data, _ = j.Data.(string)
+	return nil
+}
 
 // CodecT is a codec-style error whose own conversion to the wire form fails (server side).
 type CodecT struct{ Msg string }
@@ -184,7 +197,7 @@ func (e *NilOK) Error() string {
 	return "nilok:" + e.Msg
 }
 
-var c11KindName = []string{"nil", "errors.New", "fmt.Errorf", "wrapped", "EVal(value,plain)", "EPtr(pointer,plain)", "MPtr(pointer,marshalable)", "MVal(value,marshalable)", "CodecS", "CodecD", "CodecF", "CodecT(ToJSONRPCError fails)", "typed-nil"}
+var c11KindName = []string{"nil", "errors.New", "fmt.Errorf", "wrapped", "EVal(value,plain)", "EPtr(pointer,plain)", "MPtr(pointer,marshalable)", "MVal(value,marshalable)", "CodecS", "CodecD", "CodecF", "CodecT(ToJSONRPCError fails)", "typed-nil", "Codec0(code 0, empty message)"}
 
 func mkErr(kind int, msg string, a int) error {
 	switch kind {
@@ -212,6 +225,8 @@ func mkErr(kind int, msg string, a int) error {
 		return &CodecT{Msg: msg}
 	case kNilOK:
 		return (*NilOK)(nil)
+	case kCodec0:
+		return &Codec0{Data: msg}
 	}
 	return nil
 }
@@ -441,6 +456,9 @@ func (c11) Run(sc core.Scenario) core.Result {
 		}
 		if shape == 1 && val != "" {
 			r.Violate("nonzero-with-error", "%s: caller got value %q alongside the error", label, val)
+		}
+		if kind == kCodec0 {
+			continue // non-nil and zero value were checked above; the generic form of this error has no text
 		}
 		if kind == kCodecT || kind == kNilOK {
 			// server-side conversion failure / typed nil: whatever form the error takes on the client, it is an
